@@ -28,6 +28,10 @@ fn one<B: Backend>(r0: &N, ctx: &mut Ctx) -> Result<(), Failure> {
         None => "branch:den-zero",
     });
     ctx.class(&format!("{}:r0:{}", B::NAME, classify_fe(r0, &Q.m)));
+    if let Some(site) = structured_intermediate(r0) {
+        ctx.class(&format!("{}:structured-intermediate:{site}", B::NAME));
+        ctx.class("structured-intermediate");
+    }
     if !r0.is_zero() {
         ctx.nontrivial();
     }
@@ -60,6 +64,32 @@ fn one<B: Backend>(r0: &N, ctx: &mut Ctx) -> Result<(), Failure> {
     Ok(())
 }
 
+/// the first intermediate value of the map (model side) whose plain or Montgomery form is sparse / small
+fn structured_intermediate(r0: &N) -> Option<&'static str> {
+    let c = &*CURVE;
+    let f = &*Q;
+    let r = f.mul(&c.zeta, &f.sq(r0));
+    let d_m_a = f.sub(&c.d, &c.a);
+    let a1 = f.sub(&f.mul(&c.d, &r), &d_m_a);
+    let a2 = f.sub(&f.mul(&d_m_a, &r), &c.d);
+    let den = f.mul(&a1, &a2);
+    let num = f.mul(&f.add(&r, &N::from(1u32)), &c.a_m_2d);
+    let vals = [("r", r.clone()), ("den-factor", a1), ("den-factor", a2), ("den", den.clone()), ("num", num.clone()), ("num*den", f.mul(&num, &den)), ("r-1", f.sub(&r, &N::from(1u32)))];
+    let mont = (N::from(1u32) << 256) % &f.m;
+    for (name, v) in vals {
+        for x in [v.clone(), f.mul(&v, &mont)] {
+            let (lo, hi) = (x.clone(), f.neg(&x));
+            for y in [lo, hi] {
+                let nz = y.to_u32_digits().iter().filter(|w| **w != 0).count();
+                if nz <= 2 {
+                    return Some(name);
+                }
+            }
+        }
+    }
+    None
+}
+
 fn two<B: Backend>(r1: &N, r2: &N, ctx: &mut Ctx) -> Result<(), Failure> {
     let c = &*CURVE;
     let want = c.add(&c.elligator_spec(r1), &c.elligator_spec(r2));
@@ -83,7 +113,8 @@ impl Property for C07 {
     const ID: &'static str = "C07";
     fn rule(&self) -> String {
         "cases: field elements r0 (uniform, 0, +-small, near q, near q/2, powers of two, limb patterns, powers of zeta, roots of unity of every order \
-         2^k, k=0..47) and pairs, both configurations; oracle: line-by-line port of ristretto.sage's unoptimised elligatorSpec, compared through the \
+         2^k, k=0..47; plus inputs solved from a structured target value -- Montgomery-sparse, small, near q -- of one of the map's intermediate \
+         values r, den and its factors, num, num*den, r-1, n1, n2) and pairs, both configurations; oracle: line-by-line port of ristretto.sage's unoptimised elligatorSpec, compared through the \
          hook coordinates; plus invariance under r0 -> -r0, encoding equals the specification's, encode/decode round trip, r*P = identity (model, on \
          a quarter of the cases), and hash_to_curve = sum of the two maps. Non-trivial: r0 != 0 (pairs: distinct non-zero inputs); distinct by digest"
             .into()
@@ -97,6 +128,7 @@ impl Property for C07 {
     fn strategy(&self, _tier: Tier) -> BoxedStrategy<Case> {
         prop_oneof![
             4 => (backend(6, 1), gen::fq_special()).prop_map(|(bk, r0)| Case::One { bk, r0 }),
+            1 => (backend(1, 1), gen::r0_targeted()).prop_map(|(bk, r0)| Case::One { bk, r0 }),
             1 => (backend(6, 1), gen::fq_special(), gen::fq_special()).prop_map(|(bk, r1, r2)| Case::Two { bk, r1, r2 }),
         ]
         .boxed()
@@ -155,7 +187,7 @@ impl Property for C07 {
         }
     }
     fn required_classes(&self, _tier: Tier) -> Vec<String> {
-        ["branch:n1-square", "branch:n1-nonsquare", "ark:hash_to_curve", "min:hash_to_curve", "order-checked"].iter().map(|s| s.to_string()).collect()
+        ["branch:n1-square", "branch:n1-nonsquare", "ark:hash_to_curve", "min:hash_to_curve", "order-checked", "structured-intermediate", "min:structured-intermediate:num*den", "ark:structured-intermediate:num*den"].iter().map(|s| s.to_string()).collect()
     }
     fn extra_coverage(&self, classes: &mut std::collections::BTreeMap<String, u64>, cov: &mut serde_json::Map<String, serde_json::Value>) {
         let s = classes.get("branch:n1-square").copied().unwrap_or(0) as f64;
